@@ -42,8 +42,15 @@ func relayCounters(target string, base map[string]int) string {
 		d("statsd_exporter_relay_long_lines_total"), d("statsd_exporter_relay_packets_total"))
 }
 
+// once the sender goroutine has been found dead or stuck in a few cases, the remaining ones are not run
+// (every op would wait for its watchdog); the check reports the first ones
+var relayDeadCases int
+
 // case: "<packetLength> | R <linehex> | T | F | ..."   (F = from now on every send fails)
 func relayCase(c string) string {
+	if relayDeadCases >= 3 {
+		return "sent=- relayed=0 long=0 packets=0 notes=NOT-RUN"
+	}
 	ops := strings.Split(c, " | ")
 	plen, _ := strconv.ParseUint(strings.Fields(ops[0])[0], 10, 64)
 	recv, err := net.ListenUDP("udp", &net.UDPAddr{IP: net.IPv4(127, 0, 0, 1)})
@@ -70,6 +77,9 @@ func relayCase(c string) string {
 	}
 	var notes []string
 	for _, op := range ops[1:] {
+		if len(notes) > 0 {
+			break // the sender is gone: the rest of the history would only wait for watchdogs
+		}
 		f := strings.Fields(op)
 		switch f[0] {
 		case "R":
@@ -97,8 +107,11 @@ func relayCase(c string) string {
 			r.VerifCloseConn()
 		}
 	}
-	if !tick() || !tick() {
+	if len(notes) == 0 && (!tick() || !tick()) {
 		notes = append(notes, "SENDER-DEAD")
+	}
+	if len(notes) > 0 {
+		relayDeadCases++
 	}
 	var dgrams []string
 	buf := make([]byte, 65536)
